@@ -42,6 +42,9 @@ def explore(chk, harness, count, tag):
         ("vcur", "opts vcur save\nargv --config /dev/null -I 0.001 0.0025 0.0005 -o /dev/null\nrun\n"),
         ("vfs", "opts vfs save\nargv --config /dev/null -f 8123.5 --alpha0 0.0071\nrun\n"),
         ("vfr", "opts vfr save\nargv --config /dev/null --run_anyway --verbose\nrun\n"),
+        # the synchrotron frequency GIVEN as zero means "use alpha0": alpha0 must survive the round trip
+        ("vf0", "opts vf0 save\nargv --config /dev/null -f 0 --alpha0 0.0071\nrun\n"),
+        ("vf0c", "opts vf0c save\nargv --config @CFG@\ncfg SynchrotronFrequency=0 alpha0=0.0052\nrun\n"),
         ("vprec", "opts vprec save\nargv --config /dev/null -V 1234567.25 -E 1.29999987e9 -P 11.7500005\nrun\n"),
         ("vpar", "opts vpar save\nargv --config @CFG@ -V 2e6\ncfg RFVoltage=5e5 GridSize=64 BunchCurrent=0.002 BunchCurrent=0.004\nrun\n"),
     ]
